@@ -807,7 +807,13 @@ THang ==
 
 TPanic ==
   /\ IsEv("Panic")
-  /\ JudgeAnd(ObsViol(<<"C09">>, "Panic", [keys |-> <<>>, at |-> 0]))
+  \* a panic inside a client call: the call did not return what the property says it returns
+  /\ LET d == IF "during" \in DOMAIN Ev THEN Ev.during ELSE ""
+         props == IF d \in {"scan", "freshwalk", "iterscan", "iterwalk", "new_iterator"}
+                  THEN <<"C09", "C04", "C03">>
+                  ELSE IF d = "get" THEN <<"C09", "C01", "C03">>
+                  ELSE <<"C09">> IN
+     JudgeAnd(ObsViol(props, "Panic", [keys |-> <<>>, at |-> 0]))
   /\ Step(FALSE, "")
   /\ UNCHANGED <<coreVars, runInfo, keep, lastIter, manNo, isOpen, flushed, gpins, deferred, ackStore, inflight>>
 
